@@ -502,14 +502,23 @@ pub fn c13_native_kernels() {
         }}
     }
     // arithmetic crossover: the stated combination, bit-exactly, over a value grid (incl. signed zeros, huge, tiny, infinities)
-    let vals = [0.0, -0.0, 1.0, -1.0, 0.1, 3.5, -2.25, 1.0e300, -1.0e300, 1.0e-300, f64::MAX, f64::MIN_POSITIVE, f64::INFINITY];
-    let alphas = [0.0, 1.0, 0.5, 0.25, 0.1, 0.9999999999999999, 1.0e-17, 2.0, -1.0];
+    let vals = [0.0, -0.0, 1.0, -1.0, 0.1, 3.5, -2.25, 1.0e300, -1.0e300, 1.0e-300, 5.0e-324, -5.0e-324, f64::MAX, f64::MIN_POSITIVE, f64::INFINITY];
+    let alphas = [0.0, 1.0, 0.5, 0.49999999999999994, 0.25, 0.1, 0.9999999999999999, 1.0e-17, 2.0, -1.0];
     for p in vals { for q in vals { for al in alphas {
         let [c1, c2] = arithmetic_crossover(&[p, q], &[q, p], &[al, al]);
         let (e1, e2) = (al * p + (1.0 - al) * q, al * q + (1.0 - al) * p);
         let same = |a: f64, b: f64| a.to_bits() == b.to_bits() || (a.is_nan() && b.is_nan());
         if c1.len() != 2 || c2.len() != 2 || !same(c1[0], e1) || !same(c2[0], e2) || !same(c1[1], e2) || !same(c2[1], e1) {
             eprintln!("COUNTEREXAMPLE arithmetic_crossover p={p} q={q} alpha={al}: children {c1:?} {c2:?}, expected [{e1}, {e2}] [{e2}, {e1}]"); panic!("arithmetic crossover is not the stated combination")
+        }
+        // convexity for alpha in [0, 1] and finite genes: between the parental genes up to rounding (relative 4 eps, absolute
+        // f64::MIN_POSITIVE for the subnormal range)
+        if (0.0..=1.0).contains(&al) && p.is_finite() && q.is_finite() {
+            let (lo, hi) = (p.min(q), p.max(q));
+            let t = 4.0 * f64::EPSILON * hi.abs().max(lo.abs()) + f64::MIN_POSITIVE;
+            if !(c1[0] >= lo - t && c1[0] <= hi + t && c2[0] >= lo - t && c2[0] <= hi + t) {
+                eprintln!("COUNTEREXAMPLE arithmetic_crossover p={p} q={q} alpha={al}: child genes {} / {} outside [{lo}, {hi}]", c1[0], c2[0]); panic!("arithmetic crossover is not a convex combination")
+            }
         }
         cases += 1;
     }}}
